@@ -35,6 +35,7 @@ import (
 	"k8s.io/apimachinery/pkg/runtime/schema"
 	k8stesting "k8s.io/client-go/testing"
 	"k8s.io/client-go/tools/cache"
+	"k8s.io/client-go/util/workqueue"
 	"pgregory.net/rapid"
 
 	"github.com/projectcalico/calico/libcalico-go/lib/ipam"
@@ -272,6 +273,109 @@ type c39Env struct {
 	pools  cache.Indexer
 	blocks cache.Indexer
 	ipam   *c39IPAM
+	// runPlan, when set, makes the next judged reconcile happen inside a freshly started
+	// controller's real Run() loop (a kube-controllers restart) instead of a direct call.
+	runPlan *c39RunPlan
+}
+
+// c39RunPlan describes how the two informer caches of a restarted controller become synced:
+// 0 = already synced when Run() starts, k>0 = the cache completes its initial LIST at the k-th time
+// somebody asks HasSynced (sync progress is tied to poll count, not to wall-clock time).
+type c39RunPlan struct {
+	PoolsSyncAt  int
+	BlocksSyncAt int
+}
+
+// c39LazyInformer is an informer whose HasSynced is under the harness's control.
+type c39LazyInformer struct {
+	cache.SharedIndexInformer
+	indexer cache.Indexer
+	syncAt  int
+	calls   int
+	synced  bool
+	fill    func(cache.Indexer)
+}
+
+func (f *c39LazyInformer) GetIndexer() cache.Indexer { return f.indexer }
+func (f *c39LazyInformer) GetStore() cache.Store     { return f.indexer }
+func (f *c39LazyInformer) HasSynced() bool {
+	if f.synced {
+		return true
+	}
+	f.calls++
+	if f.calls >= f.syncAt {
+		f.fill(f.indexer)
+		f.synced = true
+	}
+	return f.synced
+}
+
+// c39Queue wraps the real work queue: it reports every finished item and never re-queues.
+type c39Queue struct {
+	workqueue.TypedRateLimitingInterface[string]
+	done     chan struct{}
+	requeues int
+}
+
+func (q *c39Queue) Done(item string) {
+	q.TypedRateLimitingInterface.Done(item)
+	select {
+	case q.done <- struct{}{}:
+	default:
+	}
+}
+func (q *c39Queue) AddRateLimited(item string) { q.requeues++ }
+
+// runRestarted starts a fresh controller through the real Run(), lets it do its start-of-day
+// reconcile and stops it again.  Returns a HARNESS-GAP description when Run() could not be driven.
+func (e *c39Env) runRestarted(plan *c39RunPlan) (gap string) {
+	s := e.s
+	mk := func(syncAt int, fill func(cache.Indexer)) *c39LazyInformer {
+		inf := &c39LazyInformer{indexer: cache.NewIndexer(cache.MetaNamespaceKeyFunc, cache.Indexers{}), syncAt: syncAt, fill: fill}
+		if syncAt == 0 {
+			fill(inf.indexer)
+			inf.synced = true
+		}
+		return inf
+	}
+	// The fills run either here (before Run starts) or in Run's own goroutine while this goroutine
+	// is blocked on the barrier below; the store is never touched concurrently.
+	pools := mk(plan.PoolsSyncAt, func(idx cache.Indexer) {
+		for _, n := range c39SortedKeys(s.pools) {
+			_ = idx.Add(s.pools[n].DeepCopy())
+		}
+	})
+	blocks := mk(plan.BlocksSyncAt, func(idx cache.Indexer) {
+		for _, n := range c39SortedKeys(s.blocks) {
+			_ = idx.Add(s.blocks[n].DeepCopy())
+		}
+	})
+	q := &c39Queue{
+		TypedRateLimitingInterface: workqueue.NewTypedRateLimitingQueue(workqueue.DefaultTypedControllerRateLimiter[string]()),
+		done:                       make(chan struct{}, 8),
+	}
+	c := &IPPoolController{ctx: context.Background(), cli: e.c.cli, poolInformer: pools, blockInformer: blocks, ipam: e.ipam, queue: q}
+	stopCh := make(chan struct{})
+	finished := make(chan struct{})
+	go func() {
+		defer close(finished)
+		c.Run(stopCh)
+	}()
+	select {
+	case <-q.done:
+	case <-time.After(20 * time.Second):
+		gap = "the restarted controller did not finish its start-of-day reconcile within 20s"
+	}
+	close(stopCh)
+	select {
+	case <-finished:
+	case <-time.After(20 * time.Second):
+		gap += " Run() did not return within 20s of stop"
+	}
+	if q.requeues > 0 && gap == "" {
+		gap = fmt.Sprintf("start-of-day reconcile failed and asked for %d retries", q.requeues)
+	}
+	return gap
 }
 
 func c39NewEnv() *c39Env {
@@ -381,8 +485,32 @@ func (e *c39Env) reconcileWithFaults(t c39Fataler, hist *[]string, faults map[st
 			t.Fatalf("HARNESS-GAP: cache sync: %v", err)
 		}
 	}
-	err := e.c.reconcile()
-	*hist = append(*hist, "R")
+	var err error
+	if e.runPlan != nil {
+		plan := e.runPlan
+		e.runPlan = nil
+		*hist = append(*hist, fmt.Sprintf("RESTART(poolsSyncAt=%d,blocksSyncAt=%d)", plan.PoolsSyncAt, plan.BlocksSyncAt))
+		classes = append(classes, "restart-via-run")
+		switch {
+		case plan.PoolsSyncAt < plan.BlocksSyncAt:
+			classes = append(classes, "restart-pool-cache-synced-first")
+		case plan.PoolsSyncAt > plan.BlocksSyncAt:
+			classes = append(classes, "restart-block-cache-synced-first")
+		}
+		for n := range preTerminating {
+			if p := s.pools[n]; p != nil && hasFinalizer(p) && len(s.blocksIn(p.Spec.CIDR)) > 0 {
+				classes = append(classes, "restart-while-terminating-pool-holds-blocks")
+			}
+		}
+		if gap := e.runRestarted(plan); gap != "" {
+			if len(s.clause4) == 0 {
+				t.Fatalf("HARNESS-GAP: %s\nhistory: %s\nstate:\n%s", gap, strings.Join(*hist, " "), s.describe())
+			}
+		}
+	} else {
+		err = e.c.reconcile()
+		*hist = append(*hist, "R")
+	}
 	after := afterFaulty + "after reconcile:\n" + s.describe()
 	fail := func(format string, args ...any) {
 		t.Fatalf("%s\nhistory: %s\nbefore reconcile:\n%s%s", fmt.Sprintf(format, args...), strings.Join(*hist, " "), before, after)
@@ -506,7 +634,7 @@ func c39Run(t *rapid.T, rec *ev.Recorder) {
 	for i := 0; i < nOps; i++ {
 		op := rapid.SampledFrom([]string{
 			"create", "create", "create", "create", "disable", "enable", "delete", "delete",
-			"blockCreate", "blockCreate", "blockCreate", "blockDelete", "reconcile", "reconcile", "reconcile", "reconcile", "tick",
+			"blockCreate", "blockCreate", "blockCreate", "blockDelete", "reconcile", "reconcile", "reconcile", "reconcile", "restart", "tick",
 		}).Draw(t, "op")
 		switch op {
 		case "create":
@@ -603,6 +731,22 @@ func c39Run(t *rapid.T, rec *ev.Recorder) {
 			}
 			addClasses(e.reconcileWithFaults(t, &hist, faults))
 			reconciles++
+		case "restart":
+			// kube-controllers restarts: a fresh controller goes through the real Run() with a drawn
+			// relative order in which its two informer caches complete their initial LIST.
+			plan := &c39RunPlan{}
+			switch rapid.SampledFrom([]string{"poolsFirst", "poolsFirst", "blocksFirst", "together"}).Draw(t, "cacheSyncOrder") {
+			case "poolsFirst":
+				plan.BlocksSyncAt = 1
+				if rapid.IntRange(0, 11).Draw(t, "blockListSlow") == 0 {
+					plan.BlocksSyncAt = 2 // one more 100ms poll period of WaitForCacheSync
+				}
+			case "blocksFirst":
+				plan.PoolsSyncAt = 1
+			}
+			e.runPlan = plan
+			addClasses(e.reconcileWithFaults(t, &hist, nil))
+			reconciles++
 		}
 	}
 	addClasses(e.reconcileAndCheck(t, &hist))
@@ -638,6 +782,7 @@ func TestVerifC39PoolOverlap(t *testing.T) {
 		"allocatable is what clientv3.filterIPPool lets IPAM use: not deleting, not Spec.Disabled, no Allocatable=False condition",
 		"IPAM blocks are only created inside pools that are allocatable at that moment; they may outlive the pool",
 		"pools carry no finalizers other than the controller's own",
+		"a restart step runs a fresh controller through the real Run(): HasSynced of each informer is under the harness's control (cache complete at the k-th HasSynced poll), the work queue is the real one wrapped to signal a finished item; the start-of-day reconcile is judged like any other reconcile; bounded waits map to HARNESS-GAP",
 	)
 	defer rec.Write()
 	rapid.Check(t, func(t *rapid.T) { c39Run(t, rec) })
